@@ -26,6 +26,17 @@ func (a *Abs) Init(*onnx.NodeProto) error {
 
 // Apply applies the abs operator.
 func (a *Abs) Apply(inputs []tensor.Tensor) ([]tensor.Tensor, error) {
+	// The absolute value of an unsigned integer is the integer itself.
+	switch inputs[0].Dtype() {
+	case tensor.Uint8, tensor.Uint16, tensor.Uint32, tensor.Uint64:
+		out, ok := inputs[0].Clone().(tensor.Tensor)
+		if !ok {
+			return nil, ops.ErrTypeAssert("tensor.Tensor", inputs[0].Clone())
+		}
+
+		return []tensor.Tensor{out}, nil
+	}
+
 	out, err := tensor.Abs(inputs[0])
 	if err != nil {
 		return nil, err
